@@ -985,6 +985,21 @@ func c17R7(p *core.Prog, r *core.Report) {
 			for _, in := range b.Instrs {
 				switch x := in.(type) {
 				case *ssa.Call:
+					// a sync.Map of throttles: Store after a failed Load is check-then-act without a lock, two
+					// callers that both miss each keep their own queue (LoadOrStore is the atomic form); Delete
+					// drops a queue that may be in use
+					if cal := core.Callee(x); cal != nil && (core.IsMethod(cal, "sync", "Map", "Store") || core.IsMethod(cal, "sync", "Map", "Delete") || core.IsMethod(cal, "sync", "Map", "Swap") || core.IsMethod(cal, "sync", "Map", "LoadAndDelete") || core.IsMethod(cal, "sync", "Map", "Clear")) {
+						isQ := cal.Name() == "Delete" || cal.Name() == "LoadAndDelete" || cal.Name() == "Clear"
+						for _, a := range x.Call.Args[1:] {
+							if isQueueType(underIface(a).Type()) {
+								isQ = true
+							}
+						}
+						// Delete/Clear only count on a map that also holds queues somewhere
+						if isQ && syncMapOfQueues(p, fn, x.Call.Args[0]) {
+							r.Violated(rule, fname, lab.next("sync.Map."+cal.Name()+" of a throttle"), p.Pos(x.Pos()), "the throttle table is changed with "+cal.Name()+": two callers that miss the same key at the same time each create and use their own queue (or a queue in use is dropped), so the limit holds per orphan queue and not per key; LoadOrStore is the atomic form")
+						}
+					}
 					if bi, ok := x.Call.Value.(*ssa.Builtin); ok && (bi.Name() == "delete" || bi.Name() == "clear") && len(x.Call.Args) > 0 {
 						if mt, ok := x.Call.Args[0].Type().Underlying().(*types.Map); ok && isQueueType(mt.Elem()) {
 							r.Violated(rule, fname, lab.next(bi.Name()+" on a map of throttles"), p.Pos(x.Pos()), "the queue is dropped while callers may hold or wait for its slots; the next lookup creates a fresh queue with every slot free, so more than the limit run at once")
@@ -1152,4 +1167,45 @@ func c17R8(p *core.Prog, r *core.Report) {
 	if n == 0 {
 		r.Held(rule, fname, "no search of a waiting list by address", p.Pos(fn.Pos()), "the waiter does not look itself up by address")
 	}
+}
+
+// syncMapOfQueues: somewhere in the package of fn a queue is stored into (or loaded-or-stored into)
+// the sync.Map that recv addresses (same struct field).
+func syncMapOfQueues(p *core.Prog, fn *ssa.Function, recv ssa.Value) bool {
+	fa, ok := recv.(*ssa.FieldAddr)
+	if !ok {
+		return false
+	}
+	n, f := core.FieldAddrInfo(fa)
+	for _, g := range p.ModFuncs {
+		if core.FuncPkg(g) != core.FuncPkg(fn) {
+			continue
+		}
+		for _, b := range g.Blocks {
+			for _, in := range b.Instrs {
+				c, ok := in.(*ssa.Call)
+				if !ok {
+					continue
+				}
+				cal := core.Callee(c)
+				if cal == nil || !(core.IsMethod(cal, "sync", "Map", "Store") || core.IsMethod(cal, "sync", "Map", "LoadOrStore")) {
+					continue
+				}
+				fa2, ok := c.Call.Args[0].(*ssa.FieldAddr)
+				if !ok {
+					continue
+				}
+				n2, f2 := core.FieldAddrInfo(fa2)
+				if n2 != n || f2 != f {
+					continue
+				}
+				for _, a := range c.Call.Args[1:] {
+					if isQueueType(underIface(a).Type()) {
+						return true
+					}
+				}
+			}
+		}
+	}
+	return false
 }
